@@ -17,18 +17,51 @@ def lastArgs (p : T) : List T :=
   | some l => (match segArgs l with | .angle args => args | _ => [])
   | none => []
 
+/-- the parenthesized argument node of the last segment (`Fn(A) -> B`), `none` for `Tr` and `Tr<..>` -/
+def lastParen (p : T) : Option T :=
+  match lastSeg p with
+  | some l => (match segArgs l with | .paren x => some x | _ => none)
+  | none => none
+
+/-- no or angle-bracketed arguments (used for the LEADING segments and wherever a parenthesized list is not handled) -/
 def goodArgs : SegArgs → Bool
   | .none => true
   | .angle _ => true
   | _ => false
 
-/-- a trait path the code can compare: at least one segment, every segment has an identifier, and the last
-    segment has no parenthesized arguments (`Fn(A) -> B` hits `unreachable!()`, lib.rs:95-153) -/
+/-- one of the three forms of `syn::PathArguments`: none, angle-bracketed, parenthesized -/
+def cmpArgs : SegArgs → Bool
+  | .bad => false
+  | _ => true
+
+theorem cmpArgs_of_goodArgs {a : SegArgs} (h : goodArgs a = true) : cmpArgs a = true := by
+  cases a <;> simp_all [goodArgs, cmpArgs]
+
+/-- a trait path `TraitBound::eq` / `hash` can handle: at least one segment, and the last segment has one of the three
+    argument forms None / AngleBracketed / Parenthesized (since /repo 94aac73 `Fn(A) -> B` is compared by its printed
+    arguments instead of hitting `unreachable!()`, lib.rs:97-153). Exactly the paths that have a dispatch key
+    (`keyOf_isSome`). -/
+def cmpPath (p : T) : Bool :=
+  match lastSeg p with
+  | some l => cmpArgs (segArgs l)
+  | none => false
+
+/-- a trait path as `syn` produces it: comparable (`cmpPath`) and every segment has an identifier -/
 def wfPath (p : T) : Bool :=
-  (match lastSeg p with
-   | some l => goodArgs (segArgs l)
-   | none => false) &&
-  (pathSegments p).all (fun s => (segIdent s).isSome)
+  cmpPath p && (pathSegments p).all (fun s => (segIdent s).isSome)
+
+theorem cmpPath_of_wfPath {p : T} (h : wfPath p = true) : cmpPath p = true := by
+  unfold wfPath at h
+  simp only [Bool.and_eq_true] at h
+  exact h.1
+
+/-- no generic argument of the last segment is itself a `PathArguments::Parenthesized` node (`syn` never produces
+    such an argument: the arguments of an angle-bracketed list are `GenericArgument::…` nodes). Needed only for
+    "equal hasher feeds ⇒ equal keys" (`C12_hash_iff`). -/
+def noParenArg (p : T) : Bool :=
+  (lastArgs p).all (fun a => match a with
+    | .node "PathArguments::Parenthesized" _ _ => false
+    | _ => true)
 
 theorem reverse_eq_cons {α : Type} {l : List α} {x : α} {i : List α} (h : l.reverse = x :: i) :
     l = i.reverse ++ [x] := by
@@ -54,54 +87,142 @@ theorem lastSeg_none {p : T} (h : lastSeg p = none) : (pathSegments p).reverse =
   unfold lastSeg at h
   simpa using h
 
-theorem wfPath_last {p : T} (h : wfPath p = true) :
-    ∃ l, lastSeg p = some l ∧ goodArgs (segArgs l) = true := by
-  unfold wfPath at h
-  simp only [Bool.and_eq_true] at h
+theorem cmpPath_last {p : T} (h : cmpPath p = true) :
+    ∃ l, lastSeg p = some l ∧ cmpArgs (segArgs l) = true := by
+  unfold cmpPath at h
   cases hl : lastSeg p with
   | none => rw [hl] at h; simp at h
-  | some l => rw [hl] at h; exact ⟨l, rfl, h.1⟩
+  | some l => rw [hl] at h; exact ⟨l, rfl, h⟩
+
+theorem wfPath_last {p : T} (h : wfPath p = true) :
+    ∃ l, lastSeg p = some l ∧ cmpArgs (segArgs l) = true := cmpPath_last (cmpPath_of_wfPath h)
 
 /-- the key in closed form -/
-def keyOf' (p : T) : TraitKey := ⟨initSegs p, lastIdent p, nonAssoc (lastArgs p)⟩
+def keyOf' (p : T) : TraitKey := ⟨initSegs p, lastIdent p, nonAssoc (lastArgs p), lastParen p⟩
 
-theorem keyOf_eq {p : T} (h : wfPath p = true) : keyOf p = some (keyOf' p) := by
-  obtain ⟨l, hl, hg⟩ := wfPath_last h
-  unfold keyOf keyOf' lastIdent lastArgs
+theorem keyOf_eq_of_cmp {p : T} (h : cmpPath p = true) : keyOf p = some (keyOf' p) := by
+  obtain ⟨l, hl, hg⟩ := cmpPath_last h
+  unfold keyOf keyOf' lastIdent lastArgs lastParen
   rw [rev_of_lastSeg hl, hl]
-  cases hs : segArgs l <;> simp_all [goodArgs, nonAssoc]
+  cases hs : segArgs l <;> simp_all [cmpArgs, nonAssoc]
 
+
+theorem keyOf_eq {p : T} (h : wfPath p = true) : keyOf p = some (keyOf' p) := keyOf_eq_of_cmp (cmpPath_of_wfPath h)
+
+/-- the paths with a dispatch key are exactly the comparable ones -/
+theorem keyOf_isSome (p : T) : (keyOf p).isSome = cmpPath p := by
+  cases hc : cmpPath p with
+  | true => rw [keyOf_eq_of_cmp hc]; rfl
+  | false =>
+    unfold cmpPath at hc
+    unfold keyOf
+    cases hl : lastSeg p with
+    | none => rw [lastSeg_none hl]; rfl
+    | some l =>
+      rw [hl] at hc
+      rw [rev_of_lastSeg hl]
+      simp only at hc ⊢
+      cases hs : segArgs l <;> rw [hs] at hc <;> simp [cmpArgs] at hc ⊢
+
+theorem keyOf_some {p : T} {k : TraitKey} (h : keyOf p = some k) : cmpPath p = true ∧ k = keyOf' p := by
+  have hc : cmpPath p = true := by rw [← keyOf_isSome, h]; rfl
+  rw [keyOf_eq_of_cmp hc] at h
+  exact ⟨hc, (Option.some.inj h).symm⟩
 
 theorem nonAssoc_eq_nil (args : List T) :
     (!(args.any (fun a => !isAssocType a))) = true ↔ nonAssoc args = [] := by
   simp [nonAssoc, List.filter_eq_nil_iff]
 
-theorem tbEq_eq {p q : T} (hp : wfPath p = true) (hq : wfPath q = true) :
+theorem tbEq_eq_of_cmp {p q : T} (hp : cmpPath p = true) (hq : cmpPath q = true) :
     tbEq p q = if keyOf' p = keyOf' q then .t else .f := by
-  obtain ⟨lp, hlp, hgp⟩ := wfPath_last hp
-  obtain ⟨lq, hlq, hgq⟩ := wfPath_last hq
-  unfold tbEq keyOf' lastIdent lastArgs
+  obtain ⟨lp, hlp, hgp⟩ := cmpPath_last hp
+  obtain ⟨lq, hlq, hgq⟩ := cmpPath_last hq
+  unfold tbEq keyOf' lastIdent lastArgs lastParen
   rw [rev_of_lastSeg hlp, rev_of_lastSeg hlq, hlp, hlq]
   simp only [List.reverse_reverse, Option.bind_some, TraitKey.mk.injEq]
   by_cases hi : initSegs p = initSegs q
   · by_cases hid : segIdent lp = segIdent lq
     · simp only [hi, hid, bne_self_eq_false, Bool.false_eq_true, if_false, true_and]
-      cases hsp : segArgs lp <;> cases hsq : segArgs lq <;> simp_all [goodArgs, B3.ofBool, nonAssoc]
+      cases hsp : segArgs lp <;> cases hsq : segArgs lq <;> simp_all [cmpArgs, B3.ofBool, nonAssoc]
       rename_i a1 a2
       by_cases he : List.filter (fun a => !isAssocType a) a1 = List.filter (fun a => !isAssocType a) a2
       · simp [he]
-      · simp only [he, if_false]; split <;> rfl
+      · simp [he]
     · simp [hi, hid]
   · simp [hi]
 
 
-/-! ### The hasher feed is an injective function of the key -/
+theorem tbEq_eq {p q : T} (hp : wfPath p = true) (hq : wfPath q = true) :
+    tbEq p q = if keyOf' p = keyOf' q then .t else .f := tbEq_eq_of_cmp (cmpPath_of_wfPath hp) (cmpPath_of_wfPath hq)
 
-def feedOf (k : TraitKey) : List Feed :=
-  k.init.map Feed.seg ++ [Feed.ident k.ident] ++ k.args.map Feed.arg
+/-- `TraitBound::eq` is symmetric, panics included — no side condition -/
+theorem tbEq_symm (p q : T) : tbEq p q = tbEq q p := by
+  unfold tbEq
+  cases hp : (pathSegments p).reverse with
+  | nil => cases hq : (pathSegments q).reverse <;> rfl
+  | cons lp ip =>
+    cases hq : (pathSegments q).reverse with
+    | nil => rfl
+    | cons lq iq =>
+      simp only
+      by_cases hi : ip.reverse = iq.reverse
+      · by_cases hid : segIdent lp = segIdent lq
+        · simp only [hi, hid, bne_self_eq_false, Bool.false_eq_true, if_false]
+          cases hsp : segArgs lp <;> cases hsq : segArgs lq <;> simp only [B3.ofBool]
+          · rename_i a1 a2
+            by_cases hl : (nonAssoc a1).length = (nonAssoc a2).length
+            · have e : (nonAssoc a1 == nonAssoc a2) = (nonAssoc a2 == nonAssoc a1) := by
+                rw [Bool.eq_iff_iff]; simp only [beq_iff_eq]; exact eq_comm
+              simp [hl, e]
+            · have hl' : ¬ (nonAssoc a2).length = (nonAssoc a1).length := fun e => hl e.symm
+              simp [hl, hl']
+          · rename_i x y
+            have e : (x == y) = (y == x) := by
+              rw [Bool.eq_iff_iff]; simp only [beq_iff_eq]; exact eq_comm
+            rw [e]
+        · have h1 : (segIdent lp != segIdent lq) = true := by simpa using hid
+          have h2 : (segIdent lq != segIdent lp) = true := by simpa using fun e => hid e.symm
+          simp [hi, h1, h2]
+      · have h1 : (ip.reverse != iq.reverse) = true := bne_iff_ne.2 hi
+        have h2 : (iq.reverse != ip.reverse) = true := bne_iff_ne.2 (fun e => hi e.symm)
+        simp only [h1, h2, if_true]
+
+/-- comparing a path with itself: "equal" when it is comparable, a panic otherwise -/
+theorem tbEq_self (p : T) : tbEq p p = if cmpPath p then .t else .panic := by
+  cases hc : cmpPath p with
+  | true =>
+    rw [tbEq_eq_of_cmp hc hc]; simp
+  | false =>
+    unfold cmpPath at hc
+    unfold tbEq
+    cases hl : lastSeg p with
+    | none => rw [lastSeg_none hl]; rfl
+    | some l =>
+      rw [hl] at hc
+      rw [rev_of_lastSeg hl]
+      simp only [bne_self_eq_false, Bool.false_eq_true, if_false] at hc ⊢
+      cases hs : segArgs l <;> rw [hs] at hc <;> simp [cmpArgs] at hc ⊢
+
+theorem cmpPath_of_lastParen {p x : T} (h : lastParen p = some x) : cmpPath p = true := by
+  unfold lastParen at h
+  unfold cmpPath
+  cases hl : lastSeg p with
+  | none => rw [hl] at h; cases h
+  | some l =>
+    rw [hl] at h
+    simp only at h ⊢
+    cases hs : segArgs l <;> rw [hs] at h <;> simp [cmpArgs] at h ⊢
+
+/-! ### The hasher feed is a function of the key, injective up to the angle/parenthesized distinction -/
+
+/-- the part of the feed that precedes a parenthesized argument list -/
+def feedFront (k : TraitKey) : List Feed :=
+  k.init.map Feed.seg ++ Feed.ident k.ident :: k.args.map Feed.arg
+
+def feedOf (k : TraitKey) : List Feed := feedFront k ++ k.paren.toList.map Feed.arg
 
 theorem hashFeed_eq_map (p : T) : hashFeed p = (keyOf p).map feedOf := by
-  unfold hashFeed keyOf feedOf
+  unfold hashFeed keyOf feedOf feedFront
   split
   · next l i _ => cases segArgs l <;> simp
   · rfl
@@ -114,25 +235,121 @@ theorem map_arg_inj : ∀ {a a' : List T}, a.map Feed.arg = a'.map Feed.arg → 
       simp only [List.map_cons, List.cons.injEq, Feed.arg.injEq] at h
       rw [h.1, map_arg_inj h.2]
 
-theorem feedOf_inj : ∀ {k k' : TraitKey}, feedOf k = feedOf k' → k = k' := by
-  intro ⟨i, x, a⟩ ⟨i', x', a'⟩ h
-  simp only [feedOf, List.append_assoc, List.singleton_append] at h
-  induction i generalizing i' with
-  | nil =>
-    cases i' with
-    | nil =>
+/-- the front part of the feed (leading segments, identifier, arguments) determines these three components -/
+theorem feedFront_inj' : ∀ {i i' : List T} {x x' : Option String} {a a' : List T},
+    i.map Feed.seg ++ Feed.ident x :: a.map Feed.arg = i'.map Feed.seg ++ Feed.ident x' :: a'.map Feed.arg →
+    i = i' ∧ x = x' ∧ a = a'
+  | [], [], _, _, _, _, h => by
       simp only [List.map_nil, List.nil_append, List.cons.injEq, Feed.ident.injEq] at h
-      have := map_arg_inj h.2
-      simp [h.1, this]
-    | cons _ _ => simp at h
-  | cons y ys ih =>
-    cases i' with
-    | nil => simp at h
-    | cons y' ys' =>
+      exact ⟨rfl, h.1, map_arg_inj h.2⟩
+  | [], _ :: _, _, _, _, _, h => by simp at h
+  | _ :: _, [], _, _, _, _, h => by simp at h
+  | y :: ys, y' :: ys', _, _, _, _, h => by
       simp only [List.map_cons, List.cons_append, List.cons.injEq, Feed.seg.injEq] at h
-      have := ih ys' h.2
-      simp only [TraitKey.mk.injEq] at this ⊢
-      exact ⟨by rw [h.1, this.1], this.2⟩
+      obtain ⟨h1, h2, h3⟩ := feedFront_inj' h.2
+      exact ⟨by rw [h.1, h1], h2, h3⟩
+
+/-- the feed determines the key among keys of the same argument form -/
+theorem feedOf_inj {k k' : TraitKey} (h : feedOf k = feedOf k') (hp : k.paren = k'.paren) : k = k' := by
+  obtain ⟨i, x, a, o⟩ := k
+  obtain ⟨i', x', a', o'⟩ := k'
+  simp only at hp
+  subst hp
+  unfold feedOf at h
+  have h' := List.append_cancel_right h
+  unfold feedFront at h'
+  obtain ⟨h1, h2, h3⟩ := feedFront_inj' h'
+  simp only at h1 h2 h3
+  rw [h1, h2, h3]
+
+/-- the keys `keyOf` produces have arguments or a parenthesized node, never both -/
+theorem lastArgs_nil_of_lastParen {p : T} {x : T} (h : lastParen p = some x) : lastArgs p = [] := by
+  unfold lastParen at h
+  unfold lastArgs
+  cases hl : lastSeg p with
+  | none => rfl
+  | some l =>
+    rw [hl] at h
+    simp only at h ⊢
+    cases hs : segArgs l <;> rw [hs] at h <;> simp at h ⊢
+
+theorem segArgs_paren_inv {l x : T} (h : segArgs l = .paren x) :
+    ∃ id as ks, l = .node "PathSegment" [] [id, .node "PathArguments::Parenthesized" as ks] ∧
+      x = .node "PathArguments::Parenthesized" as ks := by
+  unfold segArgs at h
+  split at h
+  · cases h
+  · cases h
+  · next id as ks => cases h; exact ⟨id, as, ks, rfl, rfl⟩
+  · cases h
+
+theorem lastParen_isParenNode {p x : T} (h : lastParen p = some x) :
+    ∃ as ks, x = .node "PathArguments::Parenthesized" as ks := by
+  unfold lastParen at h
+  cases hl : lastSeg p with
+  | none => rw [hl] at h; cases h
+  | some l =>
+    rw [hl] at h
+    simp only at h
+    cases hs : segArgs l with
+    | paren y =>
+      rw [hs] at h
+      simp only [Option.some.injEq] at h
+      obtain ⟨_, as, ks, _, hy⟩ := segArgs_paren_inv hs
+      exact ⟨as, ks, by rw [← h, hy]⟩
+    | _ => rw [hs] at h; cases h
+
+theorem getLast?_feedFront (k : TraitKey) :
+    (feedFront k).getLast? = some (match k.args.getLast? with | some y => Feed.arg y | none => Feed.ident k.ident) := by
+  unfold feedFront
+  rcases List.eq_nil_or_concat k.args with h | ⟨a0, y, h⟩
+  · rw [h]; simp
+  · rw [h, List.concat_eq_append]
+    have : List.map Feed.seg k.init ++ Feed.ident k.ident :: List.map Feed.arg (a0 ++ [y]) =
+        (List.map Feed.seg k.init ++ Feed.ident k.ident :: List.map Feed.arg a0) ++ [Feed.arg y] := by simp
+    rw [this, List.getLast?_concat, List.getLast?_concat]
+
+/-- equal feeds of two paths whose generic arguments are not parenthesized-argument nodes: the same argument form -/
+theorem lastParen_eq_of_feed {p q : T} (hnp : noParenArg p = true) (hnq : noParenArg q = true)
+    (h : feedOf (keyOf' p) = feedOf (keyOf' q)) : lastParen p = lastParen q := by
+  have key : ∀ {p q : T} {x : T}, noParenArg q = true → lastParen p = some x →
+      feedOf (keyOf' p) = feedOf (keyOf' q) → lastParen q = some x := by
+    intro p q x hnq hx h
+    have hl := congrArg List.getLast? h
+    have hpx : feedOf (keyOf' p) = feedFront (keyOf' p) ++ [Feed.arg x] := by
+      simp only [feedOf, keyOf', hx, Option.toList_some, List.map_cons, List.map_nil]
+    rw [hpx, List.getLast?_concat] at hl
+    cases hq : lastParen q with
+    | some y =>
+      have hqy : feedOf (keyOf' q) = feedFront (keyOf' q) ++ [Feed.arg y] := by
+        simp only [feedOf, keyOf', hq, Option.toList_some, List.map_cons, List.map_nil]
+      rw [hqy, List.getLast?_concat] at hl
+      simp only [Option.some.injEq, Feed.arg.injEq] at hl
+      rw [hl]
+    | none =>
+      exfalso
+      have hqy : feedOf (keyOf' q) = feedFront (keyOf' q) := by
+        simp only [feedOf, keyOf', hq, Option.toList_none, List.map_nil, List.append_nil]
+      rw [hqy, getLast?_feedFront] at hl
+      cases hlast : (keyOf' q).args.getLast? with
+      | none => rw [hlast] at hl; simp at hl
+      | some y =>
+        rw [hlast] at hl
+        simp only [Option.some.injEq, Feed.arg.injEq] at hl
+        have hy : y ∈ lastArgs q := (List.mem_filter.1 (List.mem_of_getLast? hlast)).1
+        obtain ⟨as, ks, hx'⟩ := lastParen_isParenNode hx
+        unfold noParenArg at hnq
+        have := List.all_eq_true.1 hnq y hy
+        rw [← hl, hx'] at this
+        simp at this
+  cases hp : lastParen p with
+  | some x => rw [key hnq hp h]
+  | none =>
+    cases hq : lastParen q with
+    | none => rfl
+    | some y =>
+      have := key hnp hq h.symm
+      rw [hp] at this; cases this
 
 /-! ### `stripBindings` -/
 
@@ -229,8 +446,20 @@ theorem stripBindings_parts (p : T) :
 theorem wfPath_stripBindings (p : T) : wfPath (stripBindings p) = wfPath p := by
   rcases stripBindings_cases p with ⟨lc, i, id, c2, args, rfl⟩ | ⟨he, _⟩
   · rw [stripBindings_angle]
-    simp only [wfPath, lastSeg_mkPath, segArgs_angleSeg, pathSegments_mkPath, List.all_append, List.all_cons,
-      List.all_nil, Bool.and_true, segIdent_angleSeg id c2 (nonAssoc args) args, goodArgs]
+    simp only [wfPath, cmpPath, lastSeg_mkPath, segArgs_angleSeg, pathSegments_mkPath, List.all_append, List.all_cons,
+      List.all_nil, Bool.and_true, segIdent_angleSeg id c2 (nonAssoc args) args, cmpArgs]
+  · rw [he]
+
+theorem cmpPath_stripBindings (p : T) : cmpPath (stripBindings p) = cmpPath p := by
+  rcases stripBindings_cases p with ⟨lc, i, id, c2, args, rfl⟩ | ⟨he, _⟩
+  · rw [stripBindings_angle]
+    simp only [cmpPath, lastSeg_mkPath, segArgs_angleSeg, cmpArgs]
+  · rw [he]
+
+theorem lastParen_stripBindings (p : T) : lastParen (stripBindings p) = lastParen p := by
+  rcases stripBindings_cases p with ⟨lc, i, id, c2, args, rfl⟩ | ⟨he, _⟩
+  · rw [stripBindings_angle]
+    simp only [lastParen, lastSeg_mkPath, segArgs_angleSeg]
   · rw [he]
 
 theorem keyOf_stripBindings (p : T) : keyOf (stripBindings p) = keyOf p := by
